@@ -3,7 +3,7 @@
 import ast
 
 from ..absint import Interp, Obj, Opaque, Raised
-from ..astutil import call_attr, call_recv, calls_in, dotted, norm, walk_own
+from ..astutil import call_name, call_attr, call_recv, calls_in, dotted, norm, walk_own
 from ..cfg import assigns_to
 from ..rules import calling, fn_cfg, k1_before, k1_never_after, k2_unreachable, k3_after, need
 from ..selftest import Mutant
@@ -171,6 +171,12 @@ def run(ctx):
     finit = repo.func(PR, f"{COLL}.__init__")
     wrapped = {norm(s_.targets[0]) for s_ in walk_own(finit) if isinstance(s_, ast.Assign) and isinstance(s_.value, ast.Call) and norm(s_.value.func).endswith("ErrorConvertingTransport")}
     ctx.check("R7-missing-file-error-converted", f"{PR}:{COLL}.__init__", {"self._index_transport", "self._upload_transport"} <= wrapped, f"the index and upload transports are wrapped ({sorted(wrapped)})")
+    # ---- R8: every aggregate index of the collection can reload pack-names (fourth round) ------------------------------------
+    fin_ = repo.func(PR, f"{COLL}.__init__")
+    aggs = [c for c in calls_in(fin_) if (call_name(c) or norm(c.func)).split(".")[-1] == "AggregateIndex"]
+    ctx.require(len(aggs) >= 4, f"{PR}:{COLL}.__init__: only {len(aggs)} AggregateIndex(...) constructions found (hand-confirmed: 5)")
+    noreload = [f"L{c.lineno}:{norm(c)[:60]}" for c in aggs if not (c.args and norm(c.args[0]) == "self.reload_pack_names") and not any(k.arg in ("reload_func",) and norm(k.value) == "self.reload_pack_names" for k in c.keywords)]
+    ctx.check("R8-every-index-reloads", f"{PR}:{COLL}.__init__", not noreload, "all aggregate indices (revision, inventory, text, signature, chk) are given self.reload_pack_names", construct="; ".join(noreload), message=f"an aggregate index is built without the reload function ({'; '.join(noreload)}): when another process repacks, a reader whose first vanished file belongs to this index gets NoSuchFile instead of re-reading pack-names and retrying")
 
 
 def _unpack_names(fn, callee):
@@ -181,6 +187,7 @@ def _unpack_names(fn, callee):
 
 
 MUTANTS = [
+    Mutant("chk aggregate index without reload", PR, "            self.chk_index = AggregateIndex(self.reload_pack_names, flush)\n", "            self.chk_index = AggregateIndex(flush_func=flush)\n", expect="R8-every-index-reloads"),
     Mutant("memory list not resynchronised after the write", PR, "        # synchronise the memory packs list with what we just wrote:\n        self._syncronize_pack_names_from_disk_nodes(disk_nodes)\n", "", expect="R1-memory-follows-written-set"),
     Mutant("allocate tolerates a name that is already listed", PR, "        if a_new_pack.name in self._names:\n            raise errors.BzrError(f\"Pack {a_new_pack.name!r} already exists in {self}\")\n", "        if a_new_pack.name in self._names:\n            if self._names[a_new_pack.name] == tuple(a_new_pack.index_sizes):\n                return\n            raise errors.BzrError(f\"Pack {a_new_pack.name!r} already exists in {self}\")\n", expect="R6-allocate-refuses-duplicate"),
     Mutant("whole-file index reads no longer converted", "breezy/transport/__init__.py", "    def get_bytes(self, relpath):\n        try:\n            return self._transport.get_bytes(relpath)\n        except NoSuchFile as e:\n            self._convert(e)\n\n", "", expect="R7-missing-file-error-converted"),
